@@ -115,6 +115,10 @@ ROWS = [
     ("read_physical_record", "src/log_reader.c", IDX("header"), 3, [[(">=", "lr->buffer.size", 7)]], "header bytes 4..6"),
     ("read_physical_record", "src/log_reader.c", CALLTO("ldb_slice_eat"), 1,
      [[("<=", "(7 + length)", "lr->buffer.size"), (">=", "lr->buffer.size", 7)]], "record consumed from the buffer"),
+    # --- mapped reads ---
+    ("ldb_rfile_pread0", "src/util/env_unix_impl.h", lambda e: is_call(e, "ldb_slice_set") and "file->base" in (argkey(e, 1) or ""), 1,
+     [[(">=", "(offset + count)", "count"), ("<=", "(offset + count)", "file->length")]],
+     "mapped read [offset, offset + count) inside the mapping, sum not wrapped"),
     # --- CURRENT ---
     ("read_current_filename", "src/version_set.c", IDX("name", "(len - 1)"), 1, [[("!=", "len", "0")]], "last byte of CURRENT"),
     # --- file names / numbers ---
@@ -126,7 +130,7 @@ ROWS = [
     ("decode_blocks", SNP, IDX("xp", "2"), 3, [[(">=", "xn", 3)]], "third byte"),
     ("decode_blocks", SNP, IDX("xp", "3"), 2, [[(">=", "xn", 4)]], "fourth byte"),
     ("decode_blocks", SNP, IDX("xp", "4"), 1, [[(">=", "xn", 5)]], "fifth byte"),
-    ("decode_blocks", SNP, CALLTO("memcpy", a1="xp"), 1, [[("<=", "len", "zn"), ("<=", "len", "xn"), ("<", "x", 0x7fffffff)]], "literal copy"),
+    ("decode_blocks", SNP, CALLTO("memcpy", a1="xp", a2="len"), 1, [[("<=", "len", "zn"), ("<=", "len", "xn"), ("<", "x", 0x7fffffff)]], "literal copy"),
     ("decode_blocks", SNP, CALLTO("memcpy", a1="(zp - off)"), 1,
      [[("!=", "off", "0"), (">=", "(zp - sp)", "off"), ("<=", "len", "zn"), (">=", "off", "len")]], "back-reference copy"),
     ("decode_blocks", SNP, IDX("(zp - off)", "i"), 1, [[("!=", "off", "0"), (">=", "(zp - sp)", "off"), ("<=", "len", "zn"), ("<", "i", "len")]],
@@ -148,6 +152,43 @@ def check_rows(ctx):
                       "%s is dominated by its bounds guard" % what,
                       "%s is reachable without its bounds guard %s; facts on every path: %s" % (what, alts, fmt_atoms(atoms)),
                       subject="%s:%s" % (fn_name, what))
+
+
+def check_snappy_copies(ctx):
+    """Every copy in the snappy decoder is bounded by what is left of the
+    output (zn) and, when it reads the input, of the input (xn) - whatever
+    its length expression is (a constant-size fast path included)."""
+    f = ctx.fn("decode_blocks", SNP)
+    g = xgraph(ctx.P, f)
+    sites = [(b, i, e) for (b, i, e) in f.events("call") if is_call(e, ("memcpy", "memmove", "memset"))]
+    ctx.require(len(sites) >= 2, "decode_blocks: copy sites not found")
+    for b, i, e in sites:
+        n = argkey(e, 2)
+        atoms = g.must_at(b, i)
+        dst, src = argkey(e, 0) or "", argkey(e, 1) or ""
+        need = []
+        if "zp" in dst:
+            need.append(("<=", n, "zn"))
+        if "xp" in src:
+            need.append(("<=", n, "xn"))
+        ok = bool(need) and all(_le(atoms, x) for x in need)
+        ctx.check(ok, "T2-decoder-guard", "decode_blocks:copy@%s" % ":".join(e["l"].split(":")[1:]), f.name, site(f, e),
+                  "a copy of %s bytes stays inside the remaining output / input" % n,
+                  "a copy of %s bytes (%s <- %s) is not bounded by the remaining %s; facts: %s" %
+                  (n, dst, src, " / ".join(x[2] for x in need) or "buffer", fmt_atoms(atoms)),
+                  subject="decode_blocks:copy:%s" % n)
+
+
+def _le(atoms, want):
+    """n <= cap, also when n is a constant (cap >= n)."""
+    op, n, cap = want
+    if holds(atoms, want):
+        return True
+    try:
+        c = int(n)
+    except (TypeError, ValueError):
+        return False
+    return holds(atoms, (">=", cap, c))
 
 
 def check_restart_clamp(ctx):
@@ -397,6 +438,7 @@ def check_parse_results(ctx):
 
 def check(ctx):
     check_rows(ctx)
+    check_snappy_copies(ctx)
     check_restart_clamp(ctx)
     check_wide_sum(ctx)
     check_internal_key_gate(ctx)
